@@ -15,6 +15,7 @@ import (
 	"os"
 	"strconv"
 	"strings"
+	"sync"
 	"sync/atomic"
 
 	cloudstorage "cloud.google.com/go/storage"
@@ -481,7 +482,10 @@ func (g *GcsEmu) handleGcsCopy(ctx context.Context, baseUrl HttpBaseUrl, w http.
 type uploadData struct {
 	Object storage.Object
 	Conds  cloudstorage.Conditions
-	data   []byte
+
+	mu   sync.Mutex // guards data and done: chunk requests for one upload id may arrive concurrently
+	data []byte
+	done bool
 }
 
 func (g *GcsEmu) handleGcsNewBucket(ctx context.Context, w http.ResponseWriter, r *http.Request, _ cloudstorage.Conditions) {
@@ -621,6 +625,13 @@ func (g *GcsEmu) handleGcsNewObjectResume(ctx context.Context, baseUrl HttpBaseU
 		return
 	}
 
+	u.mu.Lock()
+	defer u.mu.Unlock()
+	if u.done {
+		g.gapiError(w, http.StatusNotFound, "no such id")
+		return
+	}
+
 	if len(u.data) < int(byteRange.lo) {
 		g.gapiError(w, http.StatusBadRequest, "missing content")
 		return
@@ -653,6 +664,7 @@ func (g *GcsEmu) handleGcsNewObjectResume(ctx context.Context, baseUrl HttpBaseU
 		return
 	}
 
+	u.done = true
 	g.uploadIds.Remove(id)
 	w.Header().Set("x-goog-generation", strconv.FormatInt(meta.Generation, 10))
 	w.Header().Set("X-Goog-Metageneration", strconv.FormatInt(meta.Metageneration, 10))
